@@ -11,7 +11,8 @@
        props                        the revision properties
    (revision id and file ids are attested too but are kept fixed: they are identities, not content).  The executable
    bit is attested by the strict forms only.  Values are TOKENS 0..DomSize[field]-1; the harness holds the table of concrete
-   values (deliberately including blanks, backslashes, non-ASCII text, empty / multi-line / differently terminated texts,
+   values (deliberately including single / double / leading / trailing blanks and tabs, backslashes, non-ASCII text,
+   empty / multi-line / differently terminated texts,
    binary content, negative and fractional-hour zones); the specification only needs to know which tokens denote the same
    attested value (Abs) and, for paths, the concrete names (tree validity).  The testament TEXT format is executed, not
    modelled (DESIGN 6): the laws are stated on hashes of the real texts of a pair of revisions. *)
@@ -22,17 +23,17 @@ Fields == {"f.path", "f.content", "f.exec", "g.path", "g.content", "g.exec", "l.
            "msg", "committer", "ts", "tz", "parents", "props"}
 ExecFields == {"f.exec", "g.exec"}
 DomSize == [x \in Fields |->
-              CASE x = "f.path" -> 3 [] x = "f.content" -> 4 [] x = "f.exec" -> 2
+              CASE x = "f.path" -> 6 [] x = "f.content" -> 4 [] x = "f.exec" -> 2
                 [] x = "g.path" -> 4 [] x = "g.content" -> 3 [] x = "g.exec" -> 2
-                [] x = "l.path" -> 2 [] x = "l.target" -> 5
-                [] x = "msg" -> 7 [] x = "committer" -> 3 [] x = "ts" -> 4 [] x = "tz" -> 4
-                [] x = "parents" -> 5 [] x = "props" -> 7]
+                [] x = "l.path" -> 2 [] x = "l.target" -> 8
+                [] x = "msg" -> 11 [] x = "committer" -> 3 [] x = "ts" -> 4 [] x = "tz" -> 4
+                [] x = "parents" -> 5 [] x = "props" -> 12]
 Tokens(fld) == 0..(DomSize[fld] - 1)
 IsRec(r) == DOMAIN r = Fields /\ \A fld \in Fields : r[fld] \in Tokens(fld)
 
 \* concrete path names (token + 1 indexes the tuple); directory d always exists
 PathNames == [x \in {"f.path", "g.path", "l.path"} |->
-                 CASE x = "f.path" -> <<"a", "b c", "z">>
+                 CASE x = "f.path" -> <<"a", "b c", "z", "b  c", "b c ", "b\tc">>    \* one blank, two, a trailing one, a tab
                    [] x = "g.path" -> <<"d/g", "d/h", "d\\g", "g">>      \* d\g is a top-level file whose NAME contains a backslash
                    [] x = "l.path" -> <<"l", "d/l">>]
 PathOf(r, x) == PathNames[x][r[x] + 1]
